@@ -190,8 +190,51 @@ def run_error_case(case):
     return out
 
 
+def prelude():
+    """unrelated earlier activity in the process: checks that fail or whose user code raises (C12); afterwards calls must behave as in a fresh process"""
+    import numpy as np
+    import jax.tree_util as jtu
+    from jaxtyping import Float, PyTree, jaxtyped
+
+    class Boom(BaseException):
+        pass
+
+    class FaultyNode:
+        def __init__(self, exc):
+            self.exc = exc
+    def _flat(n):
+        raise n.exc
+    jtu.register_pytree_node(FaultyNode, _flat, lambda aux, cs: None)
+
+    class RaisingMeta(type):
+        def __instancecheck__(cls, obj):
+            raise RuntimeError("leaf check")
+    class Leafy(metaclass=RaisingMeta):
+        pass
+    ops = [lambda: isinstance((1, FaultyNode(RuntimeError("flatten"))), PyTree[int]),
+           lambda: isinstance((1, FaultyNode(Boom("flatten"))), PyTree[Float[np.ndarray, "a"], "T"]),
+           lambda: isinstance((Leafy(),), PyTree[Leafy, "T"]),
+           lambda: isinstance((np.zeros((3,), "float32"),), PyTree[Float[np.ndarray, "dim+1"], "S"]),
+           lambda: isinstance((np.zeros((3,), "float32"), np.zeros((4,), "float32")), PyTree[Float[np.ndarray, "q"], "T"])]
+    for o in ops:
+        for ctx in (False, True):
+            try:
+                if ctx:
+                    with jaxtyped("context"):
+                        o()
+                else:
+                    o()
+            except BaseException:  # noqa
+                pass
+
+
 def main():
     req = json.load(sys.stdin)
+    if req.get("prelude"):
+        import warnings as _w
+        with _w.catch_warnings():
+            _w.simplefilter("ignore")
+            prelude()
     if req.get("mode") == "errors":
         buf = io.StringIO()
         with contextlib.redirect_stdout(buf), warnings.catch_warnings():
